@@ -25,6 +25,7 @@ type Solver struct {
 	timeNS  int64
 	log     *os.File
 	argv    []string
+	gen     int // incremented on every (re)start: users re-assert their state when it changes
 }
 
 var (
@@ -68,6 +69,7 @@ func (s *Solver) start() {
 	s.out = bufio.NewReaderSize(out, 1<<16)
 	s.em = NewEmitter()
 	s.depth = 0
+	s.gen++
 	if strings.HasPrefix(s.name, "z3") {
 		s.send("(set-option :global-declarations true)\n")
 	}
